@@ -77,7 +77,8 @@ def monitorsWant (c : Spec.Ctx) (obsDelta : Int) (j : Journal) (fatalHere : Bool
   (if Spec.C07.orderHolds c j then [] else ["C07|order"]) ++
   (if Spec.C07.reuseHolds c j then [] else ["C07|reuse"]) ++
   (if Spec.C07.amountHolds c want j then [] else ["C07|amount", "C05|compose"]) ++
-  (if fatalHere then [] else (Spec.C07.shortfall c want j).flatMap (fun t => ["C07|remainder-not-requested: " ++ t, "C05|brought-too-few: " ++ t])) ++
+  (if fatalHere then [] else (Spec.C07.shortfall c want j).flatMap (fun t => ["C07|remainder-not-requested: " ++ t, "C05|brought-too-few: " ++ t] ++
+    (if unt < c.st.minEff then ["C03|below min_nodes and no cool-down running, but capacity is not restored: " ++ t] else []))) ++
   (if fatalHere then [] else (Spec.C06.bad c j ++ Spec.C06.badStarve c obsDelta j ++ Spec.C06.badMaxAge c obsDelta j).map (fun t => "C06|" ++ t)) ++
   (if fatalHere then [] else (Spec.C05.badScaleUp c obsDelta).map (fun t => "C05|" ++ t))
 
@@ -211,7 +212,8 @@ def handleScan (ds : DState) (sc : ScanCase) : DState × Json :=
         | none => []
         | some ctx =>
           let mine := (paired.filter (fun t => t.1 == c.name)).map (fun t => t.2)
-          (Spec.C03.staleBad ctx mine).map (fun t => "C03:" ++ c.name ++ ":" ++ t))
+          (Spec.C03.staleBad ctx mine).map (fun t => "C03:" ++ c.name ++ ":" ++ t) ++
+          (Spec.C08.skippedBad ctx mine).map (fun t => "C08:" ++ c.name ++ ":" ++ t))
     let mons := mons ++ mon03
     -- C02 on the observed journals
     let mon02 : List String := sc.obs.recs.flatMap (fun ob =>
